@@ -120,7 +120,9 @@ Definition rec_tbl (r : jwe_reg) := if er_drafts r then jwe_recommended_drafts e
 Record prims := {
   p_json_loads : bytes -> res pv;                       (* json.loads(bytes) *)
   p_jws_verify : string -> key -> bytes -> bytes -> res bool;      (* alg.verify after the key checks *)
-  p_enc_decrypt : string -> bytes -> bytes -> bytes -> bytes -> bytes -> res bytes; (* enc.decrypt: enc ct tag cek iv aad *)
+  (* enc.decrypt: enc ct tag cek iv aad.  For the CBC-HS encs this is the tag check and the raw AES-CBC
+     decryption WITHOUT the PKCS7 unpadding (modelled below: pkcs7_unpad); for GCM / ChaCha the whole method *)
+  p_enc_decrypt : string -> bytes -> bytes -> bytes -> bytes -> bytes -> res bytes;
   p_inflate : bytes -> res bytes;                       (* zlib decompressobj().decompress + size check *)
   p_rsa_decrypt : string -> key -> bytes -> res bytes;  (* op_key.decrypt(ek, padding), ValueError -> DecodeError *)
   p_aes_unwrap : bytes -> bytes -> res bytes;           (* aes_key_unwrap(kek, ek), InvalidUnwrap -> DecodeError *)
@@ -957,6 +959,21 @@ Fixpoint recipients_loop (g : guards) (P : prims) (reg : jwe_reg) (o : jwe_obj) 
 
 Definition decode_error {A} : res A := Err (EJose DecodeError).
 
+(* PKCS7(128).unpadder(): update(data) + finalize().  ValueError ("Invalid padding bytes.") for the empty
+   string, a length that is not a multiple of the block size, a last octet outside 1..16, or padding octets
+   that differ from the last octet *)
+Definition pkcs7_unpad (data : bytes) : res bytes :=
+  let n := lenN data in
+  if (n =? 0) || negb (n mod 16 =? 0) then Err EValue else
+  let v := last data 0 in
+  if (v =? 0) || (16 <? v) then Err EValue else
+  if forallb (N.eqb v) (skipn (N.to_nat (n - v)) data) then Ok (firstn (N.to_nat (n - v)) data) else Err EValue.
+
+(* CBCHS2EncModel.decrypt / GCMEncModel.decrypt / ChaCha20EncModel.decrypt *)
+Definition enc_decrypt (P : prims) (enc : jwe_enc_row) (ct tag cek iv aad : bytes) : res bytes :=
+  do raw <- p_enc_decrypt P (ee_name enc) ct tag cek iv aad;
+  if String.eqb (ee_family enc) "CBCHS" then pkcs7_unpad raw else Ok raw.
+
 (* jwe._guess_sender_key(recipient, sender_key) behind `if sender_key:` ; [hs] = recipient.headers() *)
 Definition guess_sender_key (g : guards) (sa : senderarg) (hs : res pv) : res (option key) :=
   match sa with
@@ -988,7 +1005,7 @@ Definition perform_decrypt_inner (g : guards) (P : prims) (reg : jwe_reg) (o : j
                  | Some (x :: y) => jo_pseg o ++ 46 :: b64e_bytes (x :: y)
                  | _ => jo_pseg o
                  end in
-      do msg <- p_enc_decrypt P (ee_name enc) (jo_ct o) (jo_tag o) cek (jo_iv o) aad;
+      do msg <- enc_decrypt P enc (jo_ct o) (jo_tag o) cek (jo_iv o) aad;
       do hz <- py_in (PS "zip") (jo_protected o);
       if hz then
         do z <- py_getitem_str (jo_protected o) (SK "zip");
